@@ -4,8 +4,8 @@ import GqlModel.Validate.Annot
   (events), in exactly the order and multiplicity in which the Go walker fires them.
 
   Totality.  Everything is structural recursion over the tree except the jump from a fragment
-  spread into the selection set of the fragment definition, which Go guards by the per-operation
-  set `validatedFragmentSpreads`.  That jump is the parameter `jump` of the structural functions;
+  spread into the fragment definition (its directives, then its selection set), which Go guards by
+  the per-operation set `validatedFragmentSpreads`.  That jump is the parameter `jump` of the structural functions;
   `walkLevel n` ties the knot by recursion on a natural number (the number of nested jumps still
   allowed), so every definition here is structurally recursive and kernel-reducible.
   `GqlProofs/Validate/WalkTerm.lean` proves that `frags.length + 1` levels always suffice
@@ -156,10 +156,14 @@ mutual
         if r2.1.visited.contains f.name then
           some (r2.1, r2.2 ++ [{ cur := cur, links := r2.1.links, p := .fragmentSpread ⟨nm, dirs, p⟩ dfn parent }])
         else
-          match jump next f.sel { r2.1 with visited := f.name :: r2.1.visited } with
+          -- first visit of the fragment in this walk: the directives of the fragment DEFINITION
+          -- are walked (their variables are uses of the current operation), then its selection set
+          let rd := walkDirectives s cur next f.dirs locFragmentDefinition
+            { r2.1 with visited := f.name :: r2.1.visited }
+          match jump next f.sel rd.1 with
           | none => none
           | some r3 =>
-            some (r3.1, r2.2 ++ r3.2 ++
+            some (r3.1, r2.2 ++ rd.2 ++ r3.2 ++
               [{ cur := cur, links := r3.1.links, p := .fragmentSpread ⟨nm, dirs, p⟩ dfn parent }])
       | none =>
         some (r2.1, r2.2 ++ [{ cur := cur, links := r2.1.links, p := .fragmentSpread ⟨nm, dirs, p⟩ dfn parent }])
